@@ -1415,7 +1415,7 @@ func (d *Data) ServeHTTP(uuid dvid.UUID, ctx *datastore.VersionedCtx, w http.Res
 			return
 		}
 		w.Header().Set("Content-Type", "application/json")
-		fmt.Fprintf(w, string(jsonBytes))
+		fmt.Fprint(w, string(jsonBytes))
 		return
 	default:
 	}
@@ -1436,7 +1436,7 @@ func (d *Data) ServeHTTP(uuid dvid.UUID, ctx *datastore.VersionedCtx, w http.Res
 				return
 			}
 			w.Header().Set("Content-Type", "application/json")
-			fmt.Fprintf(w, string(jsonBytes))
+			fmt.Fprint(w, string(jsonBytes))
 			comment = fmt.Sprintf("HTTP GET ROI %q: %d bytes", d.DataName(), len(jsonBytes))
 		case "post":
 			data, err := ioutil.ReadAll(r.Body)
@@ -1523,7 +1523,7 @@ func (d *Data) ServeHTTP(uuid dvid.UUID, ctx *datastore.VersionedCtx, w http.Res
 				return
 			}
 			w.Header().Set("Content-Type", "application/json")
-			fmt.Fprintf(w, string(jsonBytes))
+			fmt.Fprint(w, string(jsonBytes))
 			comment = fmt.Sprintf("HTTP POST ptquery '%s'", d.DataName())
 		}
 	case "partition":
@@ -1558,7 +1558,7 @@ func (d *Data) ServeHTTP(uuid dvid.UUID, ctx *datastore.VersionedCtx, w http.Res
 			return
 		}
 		w.Header().Set("Content-Type", "application/json")
-		fmt.Fprintf(w, string(jsonBytes))
+		fmt.Fprint(w, string(jsonBytes))
 		comment = fmt.Sprintf("HTTP partition '%s' with batch size %d", d.DataName(), batchsize)
 	default:
 		server.BadAPIRequest(w, r, d)
